@@ -86,6 +86,33 @@ func StartBinary(root string, args []string, env []string) (*Process, error) {
 	return nil, lastErr
 }
 
+// ExitedError: the child exited before its listener accepted connections.
+type ExitedError struct{ Output string }
+
+func (e *ExitedError) Error() string { return "forwarder exited during start-up: " + e.Output }
+
+// StartBinaryVerdict is StartBinary for callers that ask WHETHER a configuration is accepted: a child that
+// exits during start-up for a reason other than a taken port is the answer (refused = true, output = what it
+// printed), not an error. A taken port is retried more often than StartBinary does.
+func StartBinaryVerdict(root string, args []string, env []string) (p *Process, refused bool, output string, err error) {
+	bin, err := BuildBinary(root)
+	if err != nil {
+		return nil, false, "", err
+	}
+	var lastErr error
+	for attempt := 0; attempt < 10; attempt++ {
+		p, err := startOnce(bin, args, env)
+		if err == nil {
+			return p, false, "", nil
+		}
+		lastErr = err
+		if ee, ok := err.(*ExitedError); ok && !strings.Contains(ee.Output, "address already in use") {
+			return nil, true, ee.Output, nil
+		}
+	}
+	return nil, false, "", lastErr
+}
+
 func startOnce(bin string, args []string, env []string) (*Process, error) {
 	port, err := FreePort()
 	if err != nil {
@@ -106,7 +133,7 @@ func startOnce(bin string, args []string, env []string) (*Process, error) {
 	for time.Now().Before(deadline) {
 		select {
 		case <-p.exited:
-			return nil, fmt.Errorf("forwarder exited during start-up: %s", out.String())
+			return nil, &ExitedError{Output: out.String()}
 		default:
 		}
 		c, err := net.DialTimeout("tcp", addr, 200*time.Millisecond)
@@ -123,7 +150,7 @@ func startOnce(bin string, args []string, env []string) (*Process, error) {
 			time.Sleep(20 * time.Millisecond)
 			select {
 			case <-p.exited:
-				return nil, fmt.Errorf("forwarder exited during start-up: %s", out.String())
+				return nil, &ExitedError{Output: out.String()}
 			default:
 				return p, nil
 			}
